@@ -699,3 +699,144 @@ theorem term_cell {S : Schema} (K : KeyOrderOn S P) {o : MergeOpts}
   exact cell_concl (fx := fx) K x0 rfl htd htt htk hss.symm hkv hcell
 
 end LyModel.Diff.K13
+
+namespace LyModel.Diff
+open LyModel LyModel.Tree
+
+/-- a node with an operation of its own (not `replace` on a user-ordered node) is applied the same way whatever it would inherit -/
+theorem applyStep_own {S : Schema} {fx : Fixes} {recur : Recur} {d : DNode} {op : Op} (h : ownOp d = some op)
+    (huo : S.isUserOrd d.sid = false) (L : List DNode) (hp : Bool) (a b : Option Op) :
+    applyStep S fx recur L hp a d = applyStep S fx recur L hp b d := by
+  have he : ∀ i, effOp d i = some op := fun i => by simp [effOp, h]
+  unfold applyStep
+  simp only [he, huo, Bool.false_and, Bool.false_eq_true, ↓reduceIte]
+  cases op with
+  | replace => rfl
+  | delete => rfl
+  | create =>
+    unfold applyCreate applyKids
+    simp only [he, childInh_of_own d .create _ h (by decide)]
+  | none =>
+    unfold applyNone applyKids
+    simp only [he, childInh_of_own d .none _ h (by decide)]
+
+theorem applyNode_own {S : Schema} {fx : Fixes} {d : DNode} {op : Op} (h : ownOp d = some op)
+    (huo : S.isUserOrd d.sid = false) (n : Nat) (L : List DNode) (hp : Bool) (a b : Option Op) :
+    applyNode S fx n L hp a d = applyNode S fx n L hp b d := by
+  cases n with
+  | zero => rfl
+  | succ k => exact applyStep_own h huo L hp a b
+
+theorem matchP_changeOp (S : Schema) (d x : DNode) (op : Op) : matchP S (changeOp d op) x = matchP S d x := by
+  simp only [matchP, sid_changeOp, instMatch_changeOp]
+
+/-- the copy of a source node with its operation made explicit is applied like the source node -/
+theorem applyNode_changeOp {S : Schema} {fx : Fixes} {d : DNode} {sin cur : Option Op} {sop : Op} (hm : MetaOK d)
+    (hop : effOp d sin = some sop) (huo : S.isUserOrd d.sid = false) (n : Nat) (L : List DNode) (hp : Bool) :
+    applyNode S fx n L hp cur (changeOp d sop) = applyNode S fx n L hp sin d := by
+  rw [applyNode_own (ownOp_changeOp hm sop) (by simpa using huo) n L hp cur sin]
+  cases n with
+  | zero => rfl
+  | succ k => exact applyStep_changeOp hm hop L hp
+
+theorem effOp_isSome_of_exact {S : Schema} {inh : Option Op} {e : Option DNode} {c : DNode} (h : exactE S inh e c = true) :
+    ∃ op, effOp c inh = some op := by
+  cases ho : effOp c inh with
+  | some op => exact ⟨op, rfl⟩
+  | none =>
+    cases c <;> simp only [exactE, ho, Bool.and_eq_true] at h <;> cases e <;> simp at h
+end LyModel.Diff
+
+namespace LyModel.Diff.K13
+open LyModel LyModel.Tree LyModel.Diff
+variable {P : DNode → Bool} {fx : Fixes}
+
+theorem effOp_isSome_of_exact {S : Schema} {inh : Option Op} {e : Option DNode} {c : DNode} (h : exactE S P inh e c = true) :
+    ∃ op, effOp c inh = some op := by
+  cases ho : effOp c inh with
+  | some op => exact ⟨op, rfl⟩
+  | none =>
+    cases c <;> simp only [exactE, ho, Bool.and_eq_true] at h <;> cases e <;> simp at h
+
+/-- an acting node acts in one way only -/
+theorem Acts.det {S : Schema} {inh : Option Op} {c : DNode} {e e1 e2 : Option DNode} (h1 : Acts S P fx inh c e e1)
+    (h2 : Acts S P fx inh c e e2) {X : List DNode} (hgX : goodT S P X = true) (hkb : KeysBelow S c X)
+    (hl : (look S X c).map normN = e) : e1 = e2 := by
+  obtain ⟨X1, ha1, _, _, _, hv1⟩ := h1 c.height false X (Nat.le_refl _) hgX hkb hl
+  obtain ⟨X2, ha2, _, _, _, hv2⟩ := h2 c.height false X (Nat.le_refl _) hgX hkb hl
+  rw [ha1] at ha2
+  cases ha2
+  rw [← hv1, hv2]
+
+/-- the copy of a source node with its operation made explicit acts like the source node -/
+theorem acts_changeOp {S : Schema} {sin cur : Option Op} {d : DNode} {sop : Op} {e e' : Option DNode} (hm : MetaOK d)
+    (hop : effOp d sin = some sop) (huo : S.isUserOrd d.sid = false) (h : Acts S P fx sin d e e') :
+    Acts S P fx cur (changeOp d sop) e e' := by
+  intro n hp X hh hgX hkb hl
+  have hmm : ∀ x, matchP S (changeOp d sop) x = matchP S d x := fun x => matchP_changeOp S d x sop
+  have hlk : ∀ Z, look S Z (changeOp d sop) = look S Z d := fun Z => look_congr_fun hmm
+  obtain ⟨X', ha, hg', hk', hloc, hv⟩ := h n hp X (by rw [← height_changeOp d sop]; exact hh) hgX
+    (by intro k hk; have := hkb k hk; simpa using this) (by rw [← hlk]; exact hl)
+  refine ⟨X', by rw [applyNode_changeOp hm hop huo]; exact ha, hg', hk', ?_, by rw [hlk]; exact hv⟩
+  intro q hq hcq
+  exact hloc q hq (by rw [← hmm]; exact hcq)
+
+/-- an exact leaf / leaf-list node acts: `tEff` -/
+theorem acts_exact_term {S : Schema} (K : KeyOrderOn S P) {c : DNode} {inh : Option Op} {op : Op} {e : Option DNode}
+    (ht : c.isTerm = true) (hex : exactE S P inh e c = true) (hop : effOp c inh = some op)
+    (hge : ∀ x, e = some x → goodN S P x = true ∧ x.sid = c.sid) : Acts S P fx inh c (e.map normN) (tEff c op) := by
+  obtain ⟨hd, _, hk⟩ := exactE_base hex
+  apply acts_of_termEff K hd ht hk
+  intro e1 he1
+  exact termEff_exact ht hex hop hge he1
+
+/-- the children of an inner node with operation `none`, exact for the children `Lk` of the instance: they act, what they make
+of `Lk` (up to `normN`) is `V`, and every good list with the observation `V` is related to them -/
+theorem kids_inv {S : Schema} (K : KeyOrderOn S P) {inh : Option Op} {Lk kt : List DNode} (hgL : goodT S P Lk = true)
+    (hex : exactK S P inh Lk true kt = true) :
+    ∃ (Ek : DNode → Option DNode) (V : List DNode), TInv S P fx inh (noKeys S kt) Lk Ek ∧
+      ActsL S P fx inh (noKeys S kt) (normL13 Lk) V ∧
+      ∀ Yk, goodT S P Yk = true → normL13 Yk = V → Rel S P (noKeys S kt) Lk Ek Yk := by
+  have hdk : dk S true kt = noKeys S kt := by simp [dk]
+  obtain ⟨Ek, hEk⟩ := exactK_acts (fx := fx) (nodesFwd K kt) hgL hex
+  have hlvl := exactK_level K true kt hex
+  obtain ⟨X1, _, hgX1, _, hloc1, hval1⟩ := exactK_apply (fx := fx) (hp := true) K hgL hex hEk (Nat.le_refl _) hgL rfl
+  rw [hdk] at hEk hlvl hloc1 hval1
+  refine ⟨Ek, normL13 X1, ⟨hlvl, fun c hc => (exactK_mem true kt hex c (by rw [hdk]; exact hc)).2, hEk⟩, ?_, ?_⟩
+  · intro n hp X hh hgX hX
+    obtain ⟨X2, hX2, hgX2, hkX2, hloc2, hval2⟩ := exactK_apply (fx := fx) (hp := hp) K hgL hex (by rw [hdk]; exact hEk)
+      (by rw [hdk]; exact hh) hgX hX
+    rw [hdk] at hX2 hloc2 hval2
+    exact ⟨X2, hX2, hgX2, hkX2, normL_eq_of_level K hlvl.dom hgX2 hgX1 hloc2 hloc1 hX
+      (fun c hc => by rw [hval2 c hc, hval1 c hc])⟩
+  · intro Yk _ hYk
+    refine ⟨fun t ht => ?_, fun q hq hall => ?_⟩
+    · rw [look_norm_congr hYk t]; exact hval1 t ht
+    · rw [look_norm_congr hYk q, hloc1 q hq hall]
+
+/-- a target level that acts on `L`: what it makes of `L` (up to `normN`) is one list `V`, the observation of every related list -/
+theorem TInv.actsL {S : Schema} (K : KeyOrderOn S P) {cur : Option Op} {T L : List DNode} {E : DNode → Option DNode}
+    (hT : TInv S P fx cur T L E) (hgL : goodT S P L = true) :
+    ∃ V, ActsL S P fx cur T (normL13 L) V ∧ ∀ Y, goodT S P Y = true → Rel S P T L E Y → normL13 Y = V := by
+  obtain ⟨X1, _, hgX1, _, hloc1, hval1⟩ := hT.apply (hp := true) K (Nat.le_refl _) hgL rfl
+  refine ⟨normL13 X1, ?_, ?_⟩
+  · intro n hp X hh hgX hX
+    obtain ⟨X2, hX2, hgX2, hkX2, hloc2, hval2⟩ := hT.apply (hp := hp) K hh hgX hX
+    exact ⟨X2, hX2, hgX2, hkX2, normL_eq_of_level K hT.lvl.dom hgX2 hgX1 hloc2 hloc1 hX
+      (fun c hc => by rw [hval2 c hc, hval1 c hc])⟩
+  · intro Y hgY hR
+    exact (Rel.result K hT.lvl hR hgY rfl hgX1 hloc1 hval1).symm
+
+/-- the source node changes (up to `normN`) nothing and meets nothing: the relation is kept -/
+theorem rel_skip {S : Schema} (K : KeyOrderOn S P) {Tb L Y Y' : List DNode} {E : DNode → Option DNode} (hlv : Level S P Tb)
+    (hR : Rel S P Tb L E Y) {src : DNode} (hsd : Dom S P src) (hun : ∀ t ∈ Tb, matchP S src t = false)
+    (hgY' : goodT S P Y' = true) (hgY : goodT S P Y = true) (hloc : Local S P src Y Y')
+    (hval : (look S Y' src).map normN = (look S Y src).map normN) : Rel S P Tb L E Y' := by
+  refine ⟨fun t ht => ?_, fun q hq hall => ?_⟩
+  · rw [hloc t (hlv.dom t ht) (hun t ht)]; exact hR.on t ht
+  · cases hsq : matchP S src q
+    · rw [hloc q hq hsq]; exact hR.off q hq hall
+    · rw [← look_congr K (goodT_goodL hgY') hsd hq hsq, hval, look_congr K (goodT_goodL hgY) hsd hq hsq]
+      exact hR.off q hq hall
+
+end LyModel.Diff.K13
